@@ -477,13 +477,13 @@ theorem world_ghost_run_is_the_run (w : WState) (g : Ghost) (ops : List WOp) : (
 
 /-- **world_instruction_keeps_solvency**: one whole instruction — deposit, withdraw (partial / complete / completed-deleverage
     pay-out), borrow (with origination fee split between group and program), repay (partial / complete / token-less), balance
-    closure, bankruptcy settlement, classic liquidation, by any signer on any accounts and banks with any unsigned arguments,
+    closure, bankruptcy settlement, classic liquidation, the accrual crank, fee collection, by any signer on any accounts and banks with any unsigned arguments,
     accepted or refused — keeps the invariant and, for EVERY bank of the world,
 
         vault·2^96 − (deposits − loans + uncollected fees) + allowance consumed + sanctioned write-offs
 
     does not fall, where the vault moves by exactly the tokens the instruction's outcome announces (deposits and repayments
-    net of the mint's transfer fee; the insurance pay-in of a settlement; the whole-token insurance fee of a liquidation out),
+    net of the mint's transfer fee; the insurance pay-in of a settlement; the whole-token insurance fee of a liquidation and the three transfers of a fee collection out),
     the allowance grows by the accrual allowance (one ulp of rate on the debt, one ulp per debt share, the per-period lending
     rate) plus asv + lsv + 1 per withdrawal / borrow / liquidation leg and 2^48 per complete repayment (all at 2^-96 token),
     and the write-offs are the two sanctioned exceptions: the risk admin's token-less repayment on a sunset bank, and the bad
